@@ -10,7 +10,7 @@ From SV Require Import C12.Lts C12.Conn C12.ConnProofs C12.Refs C12.RefsProofs
   C12.OffMgr C12.OffMgrProofs C12.OffMgrSim
   C12.PCons C12.PConsProofs C12.PConsSafety C12.PConsSim C12.PConsAccept C12.PConsNoOor
   C12.Group C12.GroupProofs C12.GroupSafety C12.GroupSim C12.GroupAccept C12.GroupTerm C12.GroupTerminates
-  C12.PConsTerm C12.PConsProgress
+  C12.PConsTerm C12.PConsProgress C12.PConsMeasure C12.PConsTerminates
   C12.Prod C12.ProdProofs C12.ProdSafety C12.ProdSim C12.ProdAccept C12.ProdTerm C12.ProdProgress.
 Import ListNotations.
 
@@ -34,18 +34,6 @@ Proof.
         (conj RefsP.refs_no_panic GrpS.group_no_panic_fixed))))).
 Qed.
 Print Assumptions c12_no_panic.
-
-(* async producer: no panic; shutdown() closes input, retries, errors, successes only when nothing is in flight and
-   inFlight counts every token a goroutine can hold; what the application observes is accepted by the observer
-   automaton (the acceptance function of the correspondence) *)
-Theorem c12_producer_safe :
-  (forall c l s, run (Prod.step c) (Prod.init c) l = Some s -> Prod.panic s = false) /\
-  (forall c l s, run (Prod.step c) (Prod.init c) l = Some s ->
-     Prod.inflight s = ProdP.tokens s /\
-     (Prod.err_closed s = true \/ Prod.succ_closed s = true \/ Prod.ret_closed s = true \/ Prod.in_closed s = true -> ProdP.tokens s = 0)) /\
-  (forall c l s, run (Prod.step c) (Prod.init c) l = Some s -> Prod.accepts c (trace (Prod.lbl c) l) = true).
-Proof. exact (conj ProdS.prod_no_panic (conj ProdS.prod_closed_after_last_event ProdA.prod_trace_accepted)). Qed.
-Print Assumptions c12_producer_safe.
 
 (* a reference that is never returned (retryBatch of the idempotent producer) keeps the worker's input open *)
 Theorem c12_refs_leak_never_closed : forall n l1 s1 l2 s2,
@@ -159,23 +147,35 @@ Theorem c12_group_terminates : forall c, Grp.elock c = true ->
 Proof. exact GrpTT.group_terminates. Qed.
 Print Assumptions c12_group_terminates.
 
-(* partition consumer — partial: the progress half.  After AsyncClose / Close there is no reachable deadlock: a state
-   in which no step is enabled has dispatcher, feeder, subscription manager and subscription consumer returned and
-   messages / errors closed.  The full statement (additionally: no infinite run) is the Definition below. *)
-Theorem c12_consumer_terminates_partial : forall c s, Reach (PC.step c) (PC.init c) s -> PC.dying (PC.ch s) = true ->
-  stuck (PC.step c) s -> PC.final s.
-Proof. exact PCTT.pc_shutdown_progress. Qed.
-Print Assumptions c12_consumer_terminates_partial.
+(* partition consumer: from AsyncClose / Close on (dying closed) there is no infinite run — the dispatcher's select
+   prefers its back-off timer over the closed dying channel finitely often, the application makes finitely many further
+   calls — and a state in which no step is enabled has dispatcher, feeder, subscription manager and subscription
+   consumer returned and messages / errors closed *)
+Theorem c12_consumer_terminates : forall c,
+  Terminates (PC.step c) (fun s => Reach (PC.step c) (PC.init c) s /\ PC.dying (PC.ch s) = true) PC.final.
+Proof. exact PCTerm.pc_terminates. Qed.
+Print Assumptions c12_consumer_terminates.
 
-Definition c12_consumer_terminates : Prop := PCTT.pc_terminates_statement.
-
-(* async producer — partial: the progress half of the close cascade.  Once shutdown() has passed inFlight.Wait(), a
-   state in which no step is enabled has the four public channels closed and every goroutine of the producer
-   returned.  The full statement (from AsyncClose on, every run is finite and ends closed — which includes that
-   everything in flight gets resolved, the liveness side of property C01) is the Definition below. *)
-Theorem c12_producer_terminates_partial : forall c s, Reach (Prod.step c) (Prod.init c) s -> ProdP.sLate (Prod.sp s) = 1 ->
-  stuck (Prod.step c) s -> Prod.final s.
-Proof. exact ProdTT.prod_cascade_progress. Qed.
+(* async producer — partial (safety + the progress half of the close cascade):
+   - no schedule panics (input, retries, errors, successes, the handlers' inputs, the worker's input / output /
+     responses / stopchan are closed once and nothing is sent on them afterwards, inFlight never goes negative);
+   - shutdown() closes the four public channels only when nothing is in flight, and inFlight counts every token a
+     goroutine can hold;
+   - what the application observes is accepted by the observer automaton (the acceptance function of the correspondence);
+   - once shutdown() has passed inFlight.Wait(), a state in which no step is enabled has the four channels closed and
+     every goroutine of the producer returned (no deadlock in the cascade).
+   The full statement (from AsyncClose on every run is finite and ends closed — which includes that everything in
+   flight gets resolved, the liveness side of property C01) is the Definition below. *)
+Theorem c12_producer_terminates_partial :
+  (forall c l s, run (Prod.step c) (Prod.init c) l = Some s -> Prod.panic s = false) /\
+  (forall c l s, run (Prod.step c) (Prod.init c) l = Some s ->
+     Prod.inflight s = ProdP.tokens s /\
+     (Prod.err_closed s = true \/ Prod.succ_closed s = true \/ Prod.ret_closed s = true \/ Prod.in_closed s = true -> ProdP.tokens s = 0)) /\
+  (forall c l s, run (Prod.step c) (Prod.init c) l = Some s -> Prod.accepts c (trace (Prod.lbl c) l) = true) /\
+  (forall c s, Reach (Prod.step c) (Prod.init c) s -> ProdP.sLate (Prod.sp s) = 1 -> stuck (Prod.step c) s -> Prod.final s).
+Proof.
+  exact (conj ProdS.prod_no_panic (conj ProdS.prod_closed_after_last_event (conj ProdA.prod_trace_accepted ProdTT.prod_cascade_progress))).
+Qed.
 Print Assumptions c12_producer_terminates_partial.
 
 Definition c12_producer_terminates : Prop := ProdTT.prod_terminates_statement.
